@@ -128,7 +128,7 @@ struct M {
 		case O_REMOVE_B: if(! bLive) return 0; del(2); bLive = false; return 1;
 		case O_REMOVE_A: if(! aLive) return 0; del(1); aLive = false; return 1;
 		case O_OWNS_B: return bLive ? 1 : 0;
-		case O_EMPTY: return n == 0 ? 1 : 0;
+		case O_EMPTY: return (n == 0 && DISP != 2) ? 1 : 0;      // the heterogeneous run keeps a listener of the other prototype on the event throughout
 		default: return 1;
 		}
 	}
@@ -165,6 +165,10 @@ extern "C" void harness()
 	for(int i = 0; i <= TT; i++) g->curTraversal[i] = -1;
 #if DISP && defined(OTHERS)
 	g->t->appendListener(5, Cb(1005u)); g->t->appendListener(6, Cb(1006u));      // other events first, so that EV is not the root of an ordered map
+#endif
+#if DISP == 2
+	// the main event exists from the start, with a listener of the OTHER prototype only: the per-prototype list the threads use is created by whoever comes first
+	g->t->appendListener(EV, []() { cb_run(777u); });
 #endif
 	if(INIT >= 1) g->hA = do_append(1);
 	if(INIT >= 2) g->hB = do_append(2);
